@@ -118,7 +118,9 @@ fn rule(id: char) -> (Vec<String>, Rc<dyn RuleTrait>) {
     match id {
         'A' => (vec!["foo {NUMBER:n}".into()], Rc::new(NumRule { name: "A", add: 100.0, decline: Some(7.0) })),
         'B' => (vec!["foo {NUMBER:n}".into(), "bar {NUMBER:n}".into()], Rc::new(NumRule { name: "B", add: 200.0, decline: None })),
-        'C' => (vec!["{NUMBER:count} {TEXT:coin}".into()], Rc::new(Coin)),
+        // two patterns: on '3 pcs btc' the first one matches '3 pcs' and the rule declines (no coin
+        // 'pcs'); the second pattern must still be tried
+        'C' => (vec!["{NUMBER:count} {TEXT:coin}".into(), "{NUMBER:count} pcs {TEXT:coin}".into()], Rc::new(Coin)),
         // a pattern of a single token: the rewrite does not shorten the line
         'D' => (vec!["dozen".into()], Rc::new(ConstRule)),
         // literal words that are operator aliases of the language ('times', 'sum'): a pattern is read like a line
@@ -319,7 +321,7 @@ impl Model {
 
 /// "2 dm to cm" comes first: it has the same (source index, target index, amount) as
 /// "2 athree to atwo" and "2 bthree to btwo" in the two user families
-const PROBES_EN: [&str; 34] = ["2 dm to cm", "foo 5", "foo 7", "bar 5", "baz 5", "FOO 5", "Bar 5", "BAZ 5", "foo 5 + 1", "foo 7 + bar 1", "3 btc", "3 xyz", "3 btc to try", "10 usd to try", "1 hour 30 minutes", "10% of 200", "2 aone to atwo", "20 aone to athree", "3 athree to aone", "1 atwo to aone", "2 athree to atwo", "5 kb to byte", "24 btwo to bfour", "1 bfour to btwo", "8 btwo to bthree", "2 bthree to btwo", "4 times 5", "sum 7 8", "dozen", "dozen dozen", "dozen + dozen + 1", "dozen usd to try", "n = 20\nn aone to athree", "n = 24\nn btwo to bfour"];
+const PROBES_EN: [&str; 37] = ["2 dm to cm", "foo 5", "foo 7", "bar 5", "baz 5", "FOO 5", "Bar 5", "BAZ 5", "foo 5 + 1", "foo 7 + bar 1", "3 btc", "3 pcs btc", "3 pcs btc + 2 btc", "3 xyz", "3 btc to try", "10 usd to try", "1 hour 30 minutes", "10% of 200", "2 aone to atwo", "20 aone to athree", "0,000000003 aone to athree", "3 athree to aone", "1 atwo to aone", "2 athree to atwo", "5 kb to byte", "24 btwo to bfour", "1 bfour to btwo", "8 btwo to bthree", "2 bthree to btwo", "4 times 5", "sum 7 8", "dozen", "dozen dozen", "dozen + dozen + 1", "dozen usd to try", "n = 20\nn aone to athree", "n = 24\nn btwo to bfour"];
 const PROBES_TR: [&str; 4] = ["foo 5", "foo 7", "bar 5", "2 gün"];
 
 fn probe_full(calc: &SmartCalc) -> Vec<(String, Run)> {
@@ -713,12 +715,17 @@ impl C18 {
                     }
                 }
             }
-            if lang == "en" && line == "3 btc" && m.rules.iter().any(|(l, id)| l == "en" && *id == 'C') {
+            let coin_want = match line {
+                "3 btc" | "3 pcs btc" => Some(3000.0),
+                "3 pcs btc + 2 btc" => Some(5000.0),
+                _ => None,
+            };
+            if let (true, Some(want), true) = (lang == "en", coin_want, m.rules.iter().any(|(l, id)| l == "en" && *id == 'C')) {
                 match r.single() {
-                    Some(Slot::Ok { val: Val::Money(x, c), .. }) if *x == 3000.0 && c == "USD" => {}
+                    Some(Slot::Ok { val: Val::Money(x, c), .. }) if *x == want && c == "USD" => {}
                     _ => {
-                        v.expected = "3 btc -> Money(3000, USD)".into();
-                        v.violation = Some("probe \"3 btc\": the coin rule survives but the line does not evaluate to the token it returns".into());
+                        v.expected = format!("{} -> Money({}, USD)", line, want);
+                        v.violation = Some(format!("probe {:?}: the coin rule survives but the line does not evaluate to the token it returns (a pattern the rule declines must not keep its later patterns from being tried)", line));
                         return v;
                     }
                 }
@@ -727,6 +734,8 @@ impl C18 {
             let chain: Option<(f64, usize, usize)> = match line {
                 "2 aone to atwo" => Some((2.0, 1, 2)),
                 "20 aone to athree" => Some((20.0, 1, 3)),
+                // a result far below one: a conversion is not rounded to some number of decimals
+                "0,000000003 aone to athree" => Some((3e-9, 1, 3)),
                 "3 athree to aone" => Some((3.0, 3, 1)),
                 "1 atwo to aone" => Some((1.0, 2, 1)),
                 "2 athree to atwo" => Some((2.0, 3, 2)),
